@@ -59,8 +59,9 @@ func (o *tcpSYNCmdOpts) startScan(ctx context.Context, args []string) (err error
 		withTCPScanName(scanName),
 		withTCPPacketFillerOptions(tcp.WithSYN()),
 		withTCPPacketFilterFunc(func(pkt *layers.TCP) bool {
-			// port is open
-			return pkt.SYN && pkt.ACK
+			// port is open: exactly SYN+ACK, the NS flag is not covered by the BPF filter
+			return pkt.SYN && pkt.ACK &&
+				!(pkt.FIN || pkt.RST || pkt.PSH || pkt.URG || pkt.ECE || pkt.CWR || pkt.NS)
 		}),
 		withTCPPacketFlags(tcp.EmptyFlags),
 	)
